@@ -171,6 +171,15 @@ def plan_c04(tier, seed):
                 assumptions=ASSUME_COMMON, minima={"cases": 100, "distinct_nontrivial": 50, "release_array": 100, "cycles": 20, "drains": 20})
 
 
+ARENA_KINDS = ["arena<cached>", "arena<uncached>", "static_block_allocator", "virtual_block_allocator", "fixed_block_allocator",
+               "growing_block_allocator"]
+
+
+def arena_jobs(cfgs, tier):
+    n = _scale(tier, 60, 1500)
+    return hist_jobs("h_arena", ARENA_KINDS, cfgs, ["walk"], n, _scale(tier, 200, 400), _scale(tier, 60, 250))
+
+
 def plan_c05(tier, seed):
     q = tier == "quick"
     cfgs = Q_CFGS if q else T_CFGS
@@ -180,7 +189,8 @@ def plan_c05(tier, seed):
     jobs = pool_jobs(cfgs, ["walk", "phased"], n, ops, ck) + coll_jobs(cfgs, ["walk", "phased"], n // 2, ops, ck) \
         + stack_jobs(cfgs, ["walk", "phased"], n * 2, ops, ck, kinds=STACK_KINDS) \
         + stack_jobs(cfgs, ["walk"], n, ops, ck, kinds=ITER_KINDS) \
-        + low_jobs(cfgs, n, ops, ck, kinds=["heap_allocator", "malloc_allocator", "aligned<heap>", "temporary/explicit-stack"])
+        + low_jobs(cfgs, n, ops, ck, kinds=["heap_allocator", "malloc_allocator", "aligned<heap>", "temporary/explicit-stack"]) \
+        + arena_jobs(cfgs, tier)
     return dict(jobs=jobs, level="exploration",
                 rule=RULE_HISTORY % ("allocations, releases, unwinds, shrink_to_fit, moves, move assignments, swaps and destruction at seeded points over "
                                      "instrumented block sources that check every release (known block, once, same address/size/alignment, LIFO)",
@@ -448,7 +458,7 @@ def plan_c12(tier, seed):
     ops = _scale(tier, 250, 400)
     ck = _scale(tier, 60, 150)
     jobs = pool_jobs(cfgs, ["walk", "phased", "corner"], n, ops, ck) + coll_jobs(cfgs, ["walk", "phased"], n // 2, ops, ck) \
-        + stack_jobs(cfgs, ["walk", "phased"], n, ops, ck, kinds=STACK_KINDS + ITER_KINDS)
+        + stack_jobs(cfgs, ["walk", "phased"], n, ops, ck, kinds=STACK_KINDS + ITER_KINDS) + arena_jobs(cfgs, tier)
     return dict(jobs=jobs, level="exploration",
                 rule=RULE_HISTORY % ("operations with move construction, move assignment (onto fresh and onto used targets) and swap inserted at seeded "
                                      "positions; the shadow heap, the upstream log and the leak handler keep judging across the move",
@@ -464,13 +474,18 @@ def plan_c15(tier, seed):
     ck = _scale(tier, 60, 150)
     jobs = pool_jobs(cfgs, ["walk", "phased"], n, ops, ck) + coll_jobs(cfgs, ["walk", "phased"], n // 2, ops, ck) \
         + stack_jobs(cfgs, ["walk"], n, ops, ck, kinds=STACK_KINDS)
+    for cfg in cfgs:
+        for k in ("heap_allocator", "malloc_allocator", "new_allocator", "virtual_memory_allocator"):
+            jobs.append(Job("h_debug", cfg, "plain", "exitleak", "exit-leak/" + k, (0, _scale(tier, 9, 60)), cpu=120))
     return dict(jobs=jobs, level="exploration",
                 rule=RULE_HISTORY % ("allocator_traits-level node and array allocations and releases (array element sizes different from node sizes), moves "
                                      "at seeded points, destruction with and without outstanding allocations; a recording leak handler is compared with "
                                      "the model's net byte count at every destruction",
                                      "memory was released and the allocator was destroyed with a non-zero net count or was moved"),
-                assumptions=ASSUME_COMMON + ["the stateless allocators' exit-time report is decided by child processes (h_exit), see DESIGN.md C15"],
-                minima={"cases": 300, "distinct_nontrivial": 200, "leak_reports_checked": 300, "silent_destructions_checked": 300})
+                assumptions=ASSUME_COMMON + ["the stateless allocators' exit-time report is decided by child processes (h_debug exitleak): the amount is "
+                                             "compared exactly where the allocator counts the requested size, and as a lower bound where fences are counted too"],
+                minima={"cases": 300, "distinct_nontrivial": 200, "leak_reports_checked": 300, "silent_destructions_checked": 300,
+                        "exit_reports_checked": 20, "silent_exits_checked": 10})
 
 
 CAP_KINDS = ["pool<node>", "pool<array>", "pool<small>"]
